@@ -133,7 +133,7 @@ def run(ctx):
             hist_kind[pu.KIND_NAMES[sc["srcs"][e["src"]]["msgs"][e["mi"]]["kind"]]] += 1
     ctx.coverage.update(
         evaluations=len(scs), distinct_nontrivial=len(nontrivial),
-        rule="scenario = 1-4 generated text logs (ISO-8601 microsecond stamps with zone, multi-line messages, optional missing final newline, names of different / non-ASCII / wide widths) + optionally one fixture (utmp, evtx, journal.gz, windowed) x options (--color always/never, -n/-p, -w, -u/-l(TZ)/-z with hour, half-hour, 45-minute and negative offsets, -d from 9 formats over the modelled specifiers; every 4th scenario is of the class 'finer than a millisecond': a format with %.6f/%.9f/%6f/%9f/%f, zone -u / +05:30 / -09:30 / ..., colour alternating, text logs with 6-9 fractional digits whose consecutive messages differ only below the millisecond or have equal instants, 6 prepend separators, 7 separators with every escape, --blocksz 128/256 for multi-part lines, -a/-b windows); non-trivial = at least one decoration option on; distinct by the option tuple + source kinds; each scenario is run decorated and undecorated",
+        rule="scenario = 1-4 generated text logs (ISO-8601 microsecond stamps with zone, multi-line messages, optional missing final newline, names of different / non-ASCII / wide widths) + optionally one fixture (utmp, evtx, journal.gz, windowed) x options (--color always/never, -n/-p, -w, -u/-l(TZ)/-z with hour, half-hour, 45-minute and negative offsets, -d from 9 formats over the modelled specifiers; every 4th scenario is of the class 'finer than a millisecond': a format with %.6f/%.9f/%6f/%9f/%f, zone -u / +05:30 / -09:30 / ..., colour alternating, text logs with 6-9 fractional digits whose consecutive messages differ only below the millisecond or have equal instants, 6 prepend separators, 7 separators with every escape, --blocksz 128/256 for multi-part lines, -a/-b windows); every 4th scenario has a separator with multi-byte UTF-8 characters (arrow, pilcrow+newline, em dashes, emoji, CJK, mixed with escapes); every 4th scenario has lines longer than the 2056-byte print buffer (2055..2058, 4000, 4112, 6168, 70000, 70001 bytes) as the first line and as a later line of a multi-line message, colour alternating and with prepended fields when colour is off (model comparison only below the case size cap, run C always); non-trivial = at least one decoration option on; distinct by the option tuple + source kinds; each scenario is run decorated and undecorated",
         samples=[pu.sc_public(sc) for sc in case_sc[:3]],
         scenarios_compared_with_model=len(cases), model_disagreements=len(bad_stdout),
         spec_ok=stats["spec_ok"], too_large_for_model_run=stats["too_large_for_model_run"], generator_mismatch=stats["generator_mismatch"], payload_has_esc=stats["payload_has_esc"],
@@ -144,6 +144,13 @@ def run(ctx):
                        separator=sum(1 for s in case_sc if s["sep"]), blocksz=sum(1 for s in case_sc if s["bs"]),
                        window=sum(1 for s in case_sc if s["window"]), fixture=sum(1 for s in case_sc if s["fixture"])),
         class_hits={k: v for k, v in stats.items() if k.startswith("class_")},
+        multibyte_separator_class=dict(scenarios=sum(1 for s in scs if s.get("mbsep")),
+                                       separators=sorted(set(s["sep"] for s in scs if s.get("mbsep")))),
+        long_line_class=dict(scenarios=sum(1 for s in scs if s.get("longcls")),
+                             compared_with_model=sum(1 for s in case_sc if s.get("longcls")),
+                             coloured=sum(1 for s in scs if s.get("longcls") and s["colour"]),
+                             line_sizes=sorted(set(len(l) for s in scs if s.get("longcls") for src in s["srcs"] if not src["fixture"]
+                                                   for m in src["msgs"] for l in m["lines"] if len(l) > 2000))),
         sub_millisecond_class=dict(
             scenarios=sum(1 for s in case_sc if s.get("subms")),
             coloured=sum(1 for s in case_sc if s.get("subms") and s["colour"]),
